@@ -14,6 +14,7 @@ import json,sys
 id,tier,res=sys.argv[1:4]
 p='/verif/seeded/%s/meta.json'%id
 d=json.load(open(p))
+if 'first_run' not in d: d['first_run']={'check_output': d.get('check_output'), 'detected': d.get('detected')}
 d['check_output']=res.split('\n'); d['detected']='VIOLATION' in res
 d['ran']='./check %s --tier %s with the patch applied to /repo (git apply; undone afterwards)' % (d['breaks_property'], tier)
 json.dump(d,open(p,'w'),indent=1)
